@@ -1817,6 +1817,10 @@ class Data(BaseCartesianData):
                         # then also take into account the subarray slices in this
                         # case.
                         mask = mask[subarray_slices]
+                    else:
+                        # The statistic is then computed for the whole view,
+                        # so the result should not be padded further down.
+                        subarray_slices = None
 
                     data = self.get_data(cid, view)
 
